@@ -102,8 +102,8 @@ func c18corpus(c *mon.Ctx) []c18font {
 	}
 	for _, cf := range corpusFiles(c) {
 		small := len(cf.data) < 20000
-		if !small && !(c.Thorough() && (cf.name == "Go-Regular.ttf" || cf.name == "Go-Mono.ttf")) {
-			continue
+		if !small && !c.Thorough() {
+			continue // the twelve Go fonts (150-180 KB each) are thorough-tier only
 		}
 		f, err := sfnt.Read(bytes.NewReader(cf.data))
 		if err != nil {
